@@ -25,10 +25,10 @@ func (u *Uint64) pt(k string) *vrt.Sched {
 	}
 	return s
 }
-func (u *Uint64) Load() uint64           { u.pt("atomic.Load"); return u.real.Load() }
-func (u *Uint64) Store(v uint64)         { u.pt("atomic.Store"); u.real.Store(v) }
-func (u *Uint64) Add(d uint64) uint64    { u.pt("atomic.Add"); return u.real.Add(d) }
-func (u *Uint64) Swap(v uint64) uint64   { u.pt("atomic.Swap"); return u.real.Swap(v) }
+func (u *Uint64) Load() uint64         { u.pt("atomic.Load"); return u.real.Load() }
+func (u *Uint64) Store(v uint64)       { u.pt("atomic.Store"); u.real.Store(v) }
+func (u *Uint64) Add(d uint64) uint64  { u.pt("atomic.Add"); return u.real.Add(d) }
+func (u *Uint64) Swap(v uint64) uint64 { u.pt("atomic.Swap"); return u.real.Swap(v) }
 func (u *Uint64) CompareAndSwap(o, n uint64) bool {
 	u.pt("atomic.CAS")
 	return u.real.CompareAndSwap(o, n)
@@ -46,9 +46,9 @@ func (u *Int64) pt(k string) {
 		s.Release(&u.hb)
 	}
 }
-func (u *Int64) Load() int64         { u.pt("atomic.Load"); return u.real.Load() }
-func (u *Int64) Store(v int64)       { u.pt("atomic.Store"); u.real.Store(v) }
-func (u *Int64) Add(d int64) int64   { u.pt("atomic.Add"); return u.real.Add(d) }
+func (u *Int64) Load() int64       { u.pt("atomic.Load"); return u.real.Load() }
+func (u *Int64) Store(v int64)     { u.pt("atomic.Store"); u.real.Store(v) }
+func (u *Int64) Add(d int64) int64 { u.pt("atomic.Add"); return u.real.Add(d) }
 func (u *Int64) CompareAndSwap(o, n int64) bool {
 	u.pt("atomic.CAS")
 	return u.real.CompareAndSwap(o, n)
@@ -66,9 +66,9 @@ func (u *Int32) pt(k string) {
 		s.Release(&u.hb)
 	}
 }
-func (u *Int32) Load() int32         { u.pt("atomic.Load"); return u.real.Load() }
-func (u *Int32) Store(v int32)       { u.pt("atomic.Store"); u.real.Store(v) }
-func (u *Int32) Add(d int32) int32   { u.pt("atomic.Add"); return u.real.Add(d) }
+func (u *Int32) Load() int32       { u.pt("atomic.Load"); return u.real.Load() }
+func (u *Int32) Store(v int32)     { u.pt("atomic.Store"); u.real.Store(v) }
+func (u *Int32) Add(d int32) int32 { u.pt("atomic.Add"); return u.real.Add(d) }
 
 type Bool struct {
 	real atomic.Bool
